@@ -2369,8 +2369,13 @@ class WBEMConnection:  # pylint: disable=too-many-instance-attributes
 
         # Create parameter list
 
-        plist = [_cim_xml.EXPPARAMVALUE(x[0], tocimxml(x[1]))
-                 for x in params.items() if x[1] is not None]
+        # Note: EXPPARAMVALUE allows only an INSTANCE child for instances, so
+        # an instance path of the instance is ignored.
+        plist = [_cim_xml.EXPPARAMVALUE(
+            x[0],
+            x[1].tocimxml(ignore_path=True) if isinstance(x[1], CIMInstance)
+            else tocimxml(x[1]))
+            for x in params.items() if x[1] is not None]
 
         # Build XML request
 
